@@ -168,7 +168,8 @@ Definition m_message c tag ch :=
   if sharded c then mprefix c ++ tagged tag ch else mprefix c ++ ch.
 
 Definition map_infixes : list (list N) :=
-  [s2b ":stream:"; s2b ":meta:"; s2b ":state:"; s2b ":state:order:"; s2b ":state:expire:"; s2b ":state:meta:"].
+  [s2b ":stream:"; s2b ":meta:"; s2b ":state:"; s2b ":state:order:"; s2b ":state:expire:"; s2b ":state:meta:";
+   s2b ":nil:"].   (* ":nil:" = the slot-aligned placeholder Publish/Remove substitute for unused script KEYS *)
 
 Definition map_keys c tag ch ik : list (list N) :=
   m_message c tag ch :: map (fun infix => m_key c infix tag ch) map_infixes
